@@ -115,9 +115,9 @@ def accept_oracle(case, out):
 
 
 def timing_oracle(case, out):
-    if len(out) != 6 or out[0] != 4:
+    if len(out) != 5:
         return "malformed harness output"
-    _, sub, completed, before, after, anomalies = out
+    sub, completed, before, after, anomalies = out
     if not completed:
         return "timing program %d did not complete within the watchdog (a close()/operation hangs)" % sub
     if after:
@@ -166,15 +166,18 @@ class C06(diffcheck.DiffProp):
 
     def model_expected(self, case, out):
         if case[:1] == [4]:
-            return [4] if out[:1] != [99999] else [99999]
+            return [0, 4] if out[:1] != [99999] else [99999]
         return out
 
     def oracle(self, case, out):
-        if out[:1] == [99999]:
+        if not out or out[:1] == [99999]:
             return None
         if out[:1] == [2] and len(out) == 2:
             return "panic/abort/hang (code %d) in the program" % out[1]
         k = case[0] if case else 0
+        if out[:2] != [0, k]:
+            return "malformed harness output"
+        out = out[2:]
         if k == 1:
             return fd_oracle(case[1:], out)
         if k == 2:
@@ -186,6 +189,7 @@ class C06(diffcheck.DiffProp):
         return None
 
     def known(self, case, out, what):
+        out = out[2:] if out[:2] == [0, 3] else []
         if case[:2] == [3, 0] and out and len(out) == 3 * len(case[2:]) + 1:
             prog = case[2:]
             for k, op in enumerate(prog):
